@@ -8,21 +8,23 @@ Definition count_kind (k : evk) (l : list event) : Z := Z.of_nat (length (filter
 
 (* ---- C17 (proved: Properties/C17.v) : counters exact at every observation point.
    [seen] = events so far, newest first. *)
-Fixpoint stats_ok (seen : list event) (retries execs : Z) (tlast : Z) (l : list event) : bool :=
+Fixpoint stats_ok (seen : list event) (retries hedges execs : Z) (tlast : Z) (l : list event) : bool :=
   match l with
   | [] => true
   | e :: l' =>
       let retries' := if kind_is KRetry e then retries + 1 else retries in
+      let hedges' := if kind_is KHedge e then hedges + 1 else hedges in
       let execs' := if kind_is KFnEnd e then execs + 1 else execs in
       (match e_kind e with
        | KBreaker => true      (* state-change events carry no execution *)
-       | _ => (e_attempts e =? 1 + e_retries e) && (e_retries e =? retries') && (e_executions e =? execs')
+       | _ => (e_attempts e =? 1 + e_retries e + e_hedges e) && (e_retries e =? retries') && (e_hedges e =? hedges')
+              && (e_executions e =? execs')
        end)
-      && (tlast <=? e_time e) && stats_ok (e :: seen) retries' execs' (e_time e) l'
+      && (tlast <=? e_time e) && stats_ok (e :: seen) retries' hedges' execs' (e_time e) l'
   end.
 
 Definition c17_ok (q : request) (o : xobs) : bool :=
-  if q_withexec q then stats_ok [] 0 0 (match x_events o with e :: _ => e_time e | [] => 0 end) (x_events o) else true.
+  if q_withexec q then stats_ok [] 0 0 0 (match x_events o with e :: _ => e_time e | [] => 0 end) (x_events o) else true.
 
 (* ---- C16: completion events exactly once and consistent; retry events consistent *)
 Definition last_n {A} (n : nat) (l : list A) : list A := rev (firstn n (rev l)).
@@ -127,6 +129,41 @@ Definition c08_ok (q : request) (o : xobs) : bool :=
             | e :: _ => x_end o <=? Z.max tc (e_time e)
             end
             || negb (forallb (fun s => match fs_coop s with Some _ => true | None => false end) (q_script q) && q_withexec q))
+  | None => true
+  end.
+
+(* ---- C09 on executions whose innermost policy is a hedge policy (any policies around it): per hedged run (it begins
+        with the entry of a non-hedge attempt) at most maxHedges hedges start, hedge k not before k delays after the
+        run began; every hedge started is followed by its attempt (so none starts after the run returned);
+        a hedge policy that is the whole stack returns an attempt's outcome or the cancellation error *)
+Definition hedge_of (stack : list policy) : option hedge_cfg :=
+  match last stack (PTimeout 0) with PHedge c => Some c | _ => None end.
+
+Fixpoint c09_hedges_ok (cfg : hedge_cfg) (run_start nh : Z) (l : list event) : bool :=
+  match l with
+  | [] => true
+  | e :: l' =>
+      if kind_is KFnStart e && (e_aux e =? 0) then c09_hedges_ok cfg (e_time e) 0 l'
+      else if kind_is KHedge e then
+        (nh + 1 <=? Z.of_nat (hg_max cfg)) && (run_start + (nh + 1) * hg_delay cfg <=? e_time e) && c09_hedges_ok cfg run_start (nh + 1) l'
+      else c09_hedges_ok cfg run_start nh l'
+  end.
+
+Definition is_ctx_err (e : option err) : bool :=
+  match e with Some ECtxCanceled | Some ECtxDeadline | Some EExecCanceled => true | _ => false end.
+
+Definition c09x_ok (q : request) (o : xobs) : bool :=
+  match hedge_of (q_stack q) with
+  | Some cfg =>
+      if q_withexec q then
+        c09_hedges_ok cfg (x_start o) 0 (x_events o)
+        && (count_kind KHedge (x_events o) =? Z.of_nat (length (filter (fun e => kind_is KFnStart e && (e_aux e =? 1)) (x_events o))))
+        && (match q_stack q with
+            | [_] => is_ctx_err (snd (x_out o))
+                     || existsb (fun e => kind_is KFnEnd e && outcome_eqb (e_out e) (if q_run q then (fst (e_out e), snd (x_out o)) else x_out o)) (x_events o)
+            | _ => true
+            end)
+      else true
   | None => true
   end.
 
